@@ -20,10 +20,25 @@ func init() {
 		{"C35", "rewards never exceed the term budget — arithmetic over a vote history given as data; " + pure},
 		{"C36", "addresses have one canonical form — " + pure},
 	}
+	kit.Pending = stillPending
 	for _, id := range pending {
 		kit.NotApplicable = append(kit.NotApplicable, [2]string{id, "planned (DESIGN.md section 4) but its engine is not built yet; not claimed until its check exists and passes on the unchanged tree"})
 	}
 }
 
 // pending: properties planned in DESIGN.md whose engine does not exist yet.
-var pending = []string{"C01", "C02", "C04", "C05", "C06", "C07", "C08", "C09", "C10", "C11", "C14", "C15", "C16", "C17", "C19", "C20", "C27", "C30", "C31", "C32", "C33", "C34", "C37"}
+var pending = func() []string {
+	var out []string
+	for _, id := range []string{"C01", "C02", "C04", "C05", "C06", "C07", "C08", "C09", "C10", "C11", "C14", "C15", "C16", "C17", "C19", "C20", "C27", "C30", "C31", "C32", "C33", "C34", "C37"} {
+		if stillPending[id] {
+			out = append(out, id)
+		}
+	}
+	return out
+}()
+
+// stillPending lists the planned properties whose check is not claimed yet.
+var stillPending = map[string]bool{
+	"C09": true, "C10": true, "C15": true, "C16": true,
+	"C20": true, "C34": true,
+}
